@@ -34,6 +34,7 @@ pub struct PeerHandler {
     connection: Connection,
     own_id: [u8; PEER_ID_SIZE],
     peer_id: Option<[u8; PEER_ID_SIZE]>,
+    handshake_done: bool,
     info_hash: [u8; HASH_SIZE],
     pieces_num: usize,
     piece_tx: Option<PieceTx>,
@@ -162,6 +163,7 @@ impl PeerHandler {
             connection: Connection::new(addr),
             own_id,
             peer_id,
+            handshake_done: false,
             info_hash,
             pieces_num,
             piece_tx: None,
@@ -316,6 +318,14 @@ impl PeerHandler {
     ) -> Result<bool, Box<dyn std::error::Error>> {
         match opt_frame {
             Some(frame) => {
+                // Nothing is accepted from (or served to) a peer that has not identified its torrent
+                if !self.handshake_done {
+                    match frame {
+                        Frame::Handshake(_) => (),
+                        _ => return Err(Error::HandshakeExpected.into()),
+                    }
+                }
+
                 self.peer_state.keep_alive = match frame {
                     Frame::KeepAlive(_) => self.peer_state.keep_alive,
                     _ => 0,
@@ -353,6 +363,7 @@ impl PeerHandler {
 
         let peer_init_handshake = self.peer_id.is_none();
         self.peer_id = Some(*handshake.peer_id());
+        self.handshake_done = true;
 
         if peer_init_handshake {
             self.init_handshake(*handshake.peer_id()).await?;
